@@ -374,29 +374,34 @@ def _subst_args(nf, actuals):
 
 
 def _tuplecat(fn: ast.FunctionDef) -> Optional[List[str]]:
-    """Recognise: for termset in (a, b): if isinstance(termset, tuple): out.extend(termset) else: out.append(termset);
-    return tuple(out)  → names (a, b) in order; else None."""
-    loops = [n for n in fn.body if isinstance(n, ast.For)]
-    rets = returns_of(fn)
-    if len(loops) != 1 or len(rets) != 1:
+    """Recognise: for termset in (a, b): a tuple operand is spliced into the accumulator (`out.extend`), any other operand is
+    appended; `tuple(out)` is returned → names (a, b) in order; else None.  Decided on the per-iteration summaries, so the
+    if/else, guard-and-continue and conditional-expression spellings are the same thing."""
+    try:
+        outs = sym.outcomes(fn)
+    except sym.Unmodelled:
         return None
-    lp = loops[0]
-    it = inline_locals(lp.iter, fn)
-    if not (isinstance(it, ast.Tuple) and all(isinstance(x, ast.Name) for x in it.elts) and isinstance(lp.target, ast.Name)):
+    lps = sym.loops_of(outs)
+    rets = [o for o in outs if o.kind == "return"]
+    if len(lps) != 1 or len(rets) != 1 or rets[0].loops:
         return None
-    v = lp.target.id
-    if len(lp.body) != 1 or not isinstance(lp.body[0], ast.If) or lp.orelse:
+    lp = lps[0]
+    it, tg = lp._sym_head, lp._sym_orig.target
+    if not (isinstance(it, ast.Tuple) and all(isinstance(x, ast.Name) for x in it.elts) and isinstance(tg, ast.Name)) or lp._sym_orig.orelse:
         return None
-    iff = lp.body[0]
-    if norm(iff.test) != f"isinstance({v}, tuple)" or len(iff.body) != 1 or len(iff.orelse) != 1:
+    v = tg.id
+    T = f"isinstance({v}, tuple)"
+    spliced = sym.iteration_effects(outs, lp, {T: True})
+    single = sym.iteration_effects(outs, lp, {T: False})
+    if len(spliced) != 1 or len(single) != 1 or spliced[0][0] not in ("fall", "continue") or single[0][0] not in ("fall", "continue") \
+            or len(spliced[0][1]) != 1 or len(single[0][1]) != 1:
         return None
-    ext, app = iff.body[0], iff.orelse[0]
-    m1 = re.fullmatch(r"(\w+)\.extend\(%s\)" % v, norm(ext))
-    m2 = re.fullmatch(r"(\w+)\.append\(%s\)" % v, norm(app))
+    m1 = re.fullmatch(r"(\w+)\.extend\(%s\)" % v, norm(spliced[0][1][0]))
+    m2 = re.fullmatch(r"(\w+)\.append\(%s\)" % v, norm(single[0][1][0]))
     if not (m1 and m2 and m1.group(1) == m2.group(1)):
         return None
     acc = m1.group(1)
-    if norm(rets[0].value) != f"tuple({acc})":
+    if rets[0].value is None or norm(rets[0].value) != f"tuple({acc})":
         return None
     inits = [val for n, val, _ in assignments(fn) if n == acc]
     if len(inits) != 1 or norm(inits[0]) != "[]":
@@ -504,7 +509,14 @@ def power_guard_facts(P: Project, pf: FunctionInfo):
             test_node, par = par, P.parent(par)
         if isinstance(par, ast.If) and par.test is test_node:
             branch = par.body if pol else par.orelse
-            return any(isinstance(s, ast.Raise) or (isinstance(s, ast.Return) and (s.value is None or is_const(s.value, None))) for s in branch)
+
+            def none_then_raise(s):
+                # `x = None` where the function goes on to raise on `x is None` (the statement spelling of `x = … if ok else None`)
+                if not (isinstance(s, ast.Assign) and len(s.targets) == 1 and isinstance(s.targets[0], ast.Name) and is_const(s.value, None)):
+                    return False
+                t_ = s.targets[0].id
+                return any(isinstance(i_, ast.If) and norm(i_.test) == f"{t_} is None" and any(isinstance(b_, ast.Raise) for b_ in i_.body) for i_ in nodes)
+            return any(isinstance(s, ast.Raise) or (isinstance(s, ast.Return) and (s.value is None or is_const(s.value, None))) or none_then_raise(s) for s in branch)
         if isinstance(par, ast.IfExp) and par.test is test_node:
             br = par.body if pol else par.orelse
             return is_const(br, None)
